@@ -170,6 +170,17 @@ CHECKS = {
         "Non-concatenating declarations are exercised by C01's recorder (partition of the original text).",
    technique="TLA+ spec Split (Refines, SplitApiOK) + TLC; I->S trace validation of three-mode analyses and the split API (Trace_Split)",
    design="4 C09"),
+ "C10": dict(
+   category="model_checking",
+   text="Tokenizer.tla models the reusable tokenizer and result list with a provenance tag on everything an analysis writes (lattice rows that are cleared but never shrunk, input tables, "
+        "OOV scratch, the path that is swapped with the list) and the bookkeeping of mode / requested fields / loaded fields; TLC checks NoStaleRead (an analysis reads only what it wrote itself, "
+        "hence its result is a function of text, mode and request) over all histories of up to 4 (thorough 5) operations. Every such history - set_mode, set_subset, analyses of an empty / short "
+        "/ longer / over-long text, collects into ONE reused list - is executed on ONE real tokenizer under two plugin configurations, each analysis next to a freshly created tokenizer with the same "
+        "mode and request; TLC validates the recorded trace: outcomes equal the fresh ones (a failed analysis leaves the tokenizer usable) and every collected list equals the fresh result of "
+        "the analysis it holds, on boundaries, word identities and every requested field. Seeded random histories of up to 40 operations over real-Unicode texts are validated likewise.",
+   note="Trusted: TLC, JSON bridge. The reference is the fresh tokenizer the statement names (run by the driver). Extra fields left loaded by earlier mode changes are not compared.",
+   technique="TLA+ spec Tokenizer (NoStaleRead) + TLC enumeration of all short histories, executed on the real tokenizer; I->S trace validation with fresh twins (Trace_Tokenizer)",
+   design="4 C10"),
 }
 
 NOT_YET = "no check registered yet in this revision (work in progress; see DESIGN.md section 8 build order)"
